@@ -295,6 +295,11 @@ def run(run):
             for fn in F.find('R_', 'react'):
                 c05.check_entry(run, F, E, fn, c05.REACT_SEQ, True)
             update_plan_rules(run, F, E)
+            # the gate of the plan step: set by append only, cleared by the full plan-data reset only -- were it cleared when a plan
+            # merely completes, reports made while no plan exists would never be consumed and could fire a later plan's head task
+            from rules import c09 as _c09
+            _c09.plan_exists(run, F, E)
+            run.relabel('C09.b', 'C08.g')
             status_rules(run, F, E)
             exit_clears(run, F, E)
             sibling_rule(run, F, E)
